@@ -76,7 +76,7 @@ def ack_table(ctx):
 def ack_body(ctx):
     """`ack` builds the packet from its identifier parameter and performs exactly one TxWrite on
     every normal path."""
-    b = ctx.coroutine(r"client::context::Context::<[^>]*>::ack")
+    b = ctx.flat(ctx.coroutine(r"client::context::Context::<[^>]*>::ack"))      # a helper that builds the bytes is looked at in place
     effs = ctx.effects(b)
     writes = [e for e in effs if e.kind == "TxWrite"]
     out = []
@@ -290,6 +290,34 @@ def q2dedup(ctx):
                                 "%s of the QoS 2 identifier / message %s" % (what, "happens before any suspension point of the handler" if not late else
                                                                              "can follow the suspension point(s) at %s" % sorted({hp.site(y) for y in late})),
                                 "delivery and bookkeeping are one atomic step: a failed or abandoned acknowledgement write must not leave a delivered message unrecorded (or a recorded one undelivered)"))
+            # only QoS 2 identifiers are remembered: a QoS 1 identifier recorded here is never released (no PUBREL follows a
+            # PUBACK) and would make a later QoS 2 message with the same identifier look like a re-delivery
+            for a_ in adds:
+                only2 = False
+                seen_q = []
+                for (d, s_) in hp.control_dep_closure(a_.inner_bb if not a_.via else a_.bb):
+                    si = hp.switch_info(d)
+                    if si and si["kind"] == "discr" and (si.get("adt") or "").endswith("QoS"):
+                        names = {si["variants"].get(v) for v in hp.edge_value(d, s_) if v != "otherwise"}
+                        if "otherwise" in hp.edge_value(d, s_):
+                            names |= set(si["variants"].values()) - {si["variants"].get(v) for v, _ in si["targets"]}
+                        seen_q.append(sorted(names))
+                        if names == {"ExactlyOnce"}:
+                            only2 = True
+                    else:
+                        from cond import Cond as _C
+                        c_ = _C(hp, d)
+                        if c_.kind == "call" and c_.callee == "eq":
+                            at = set()
+                            for x in c_.args:
+                                at |= hp.atoms(x)
+                            v = {y[2] for y in at if y[0] == "variant" and (y[1] or "").endswith("QoS")}
+                            h = c_.holds_on(s_)
+                            if v == {"ExactlyOnce"} and h is not None and (h ^ bool(c_.neg)):
+                                only2 = True
+                out.append(Inst("Q2DEDUP", "record-only-qos2", only2, a_.site(),
+                                "the identifier is recorded %s" % ("only on the QoS 2 edge" if only2 else "without a dominating QoS == ExactlyOnce decision (QoS decisions seen: %s)" % (seen_q or "none")),
+                                "only identifiers that a PUBREL will release are remembered"))
             # recognition of a re-delivery must not depend on the DUP flag
             dup_dep = []
             for x in [e] + adds:
